@@ -143,8 +143,69 @@ def big_structures(ctx):
     return len(cases)
 
 
+def acceptance_direct(ctx):
+    """the acceptance test itself (through the verif hook), on systems and answers written here: exact residuals a factor of
+    1.5 or more away from the bound on either side, at every size of load, in every row, with non-finite entries anywhere"""
+    from fractions import Fraction as Fr
+    from .. import stages as S
+    cases = []
+
+    def add(n, K, f, u, eps, why):
+        cases.append({"N": n, "K": [[str(i), str(j), v] for (i, j, v) in K], "F": f, "U": u, "Eps": eps, "why": why})
+
+    ident = lambda n: [(i, i, "1") for i in range(n)]
+    for n in (1, 2, 3, 5, 6, 7, 9, 13):
+        for row in sorted({0, n // 2, n - 1}):
+            for F_ in ("0", "1", "1000", "1000000", "1000000000", "-250000"):
+                for d, eps in (("0.25", "0.5"), ("0.75", "0.5"), ("-0.75", "0.5"), ("-0.25", "0.5"), ("2", "0.5"), ("0.015625", "0.0078125"), ("0.00390625", "0.0078125")):
+                    f = ["0"] * n
+                    u = ["0"] * n
+                    f[row] = F_
+                    u[row] = str(Fr(F_) - Fr(d)) if Fr(F_) - Fr(d) == int(Fr(F_) - Fr(d)) else "%r" % float(Fr(F_) - Fr(d))
+                    # the other rows carry large, exactly met loads (what is large elsewhere must not loosen this row)
+                    for i in range(n):
+                        if i != row and i % 2 == 1:
+                            f[i] = u[i] = "4000000"
+                    add(n, ident(n), f, u, eps, "residual %s in row %d of %d, bound %s, load %s" % (d, row, n, eps, F_))
+    for n in (2, 5, 8):
+        for row in range(n):
+            for bad in ("NaN", "+Inf", "-Inf"):
+                u = ["0"] * n
+                u[row] = bad
+                add(n, ident(n), ["0"] * n, u, "1000000", "%s at entry %d of %d" % (bad, row, n))
+    # a coupled system: 2x + y = 7, x + 3y = 11 has x = 2, y = 3
+    for dx, dy in (("0", "0"), ("0.25", "0"), ("0", "-0.125"), ("1", "1"), ("-0.5", "0.25")):
+        add(2, [(0, 0, "2"), (0, 1, "1"), (1, 0, "1"), (1, 1, "3")], ["7", "11"], [str(float(Fr(2) + Fr(dx))), str(float(Fr(3) + Fr(dy)))], "0.5", "coupled system, answer off by (%s, %s)" % (dx, dy))
+    outs = C.dump("accept", [{k: v for k, v in c.items() if k != "why"} for c in cases])
+    bad = 0
+    terms = []
+    for c, o in zip(cases, outs):
+        finite = all(P.finite(v) for v in c["U"])
+        expect_ok = finite
+        if finite:
+            r = [Fr(v) for v in c["F"]]
+            for i, j, v in c["K"]:
+                r[int(i)] -= Fr(v) * Fr(c["U"][int(j)])
+            expect_ok = all(abs(x) <= Fr(c["Eps"]) for x in r)
+        got_ok = (o["Refusal"] == "")
+        if got_ok != expect_ok:
+            if bad < 3:
+                ctx.violation("the acceptance test of solve %s an answer it must %s: %s" % ("lets through" if got_ok else "turns away", "turn away" if got_ok else "let through", c["why"]),
+                              {"system": {k: c[k] for k in ("N", "K", "F", "U", "Eps")}, "refusal": o["Refusal"], "how": "harness/bin/dump accept (process.VerifAcceptSolution -> ensureSolutionIsGoodEnough)"})
+            bad += 1
+        terms.append(P.stageE_case({"KEntries": c["K"], "F": c["F"], "U": c["U"], "MaxError": c["Eps"], "SolvePanic": o["Refusal"]}))
+    n_coq, mism = S.run_stage(ctx, "E2", terms[::7], P.stageE_v, shard=40)
+    ctx.log("acceptance test called directly on %d written systems and answers (%d wrong verdicts); stage E on %d of them: %s" % (
+        len(cases), bad, n_coq, "no mismatch" if mism == [] else ("BROKEN" if mism is None else "%d mismatch" % len(mism))))
+    if mism and not bad:
+        ctx.violation("correspondence between the Coq model of the acceptance test and the implementation no longer holds (stage E on written systems: %s)" % mism[0][1][:200],
+                      {"correspondence": "stage E", "searched": "%d written systems: every verdict as expected" % len(cases)}, no_input=True)
+    return {"systems": len(cases), "wrong_verdicts": bad, "evaluated_in_coq": n_coq}
+
+
 def run(ctx):
     core.run(ctx, SPEC)
+    ctx.coverage["acceptance_called_directly"] = acceptance_direct(ctx)
     ctx.coverage["large_structures"] = big_structures(ctx)
     # command-line level: a failing solve leaves no solution file, a successful one does
     from .. import cli
